@@ -4,6 +4,11 @@
 //	run A: load(old list), traffic history with a reload(new list) inserted at position pos
 //	run B: mode "erase":     load(old list), the same history, NO reload          (the reload erased)
 //	       mode "fromstart": load(new list) from the start, the same history, no reload
+//	       mode "kept":      no reference run - the watched breaker rule X is replaced by Xr (only RetryTimeoutMs
+//	                         changed: the statistic parameters and the way the statistics are read stay) at ANY
+//	                         position, also while the old breaker is Open / HalfOpen; every step records its time,
+//	                         operation and outcome, and RuleReuse_Trace computes from the recorded history what a
+//	                         breaker that starts Closed on the KEPT error count must decide after the reload
 //	                         (a modified rule with unchanged statistic parameters keeps its statistics)
 //
 // Lists are sequences of rule TOKENS: X the watched stateful rule, Xm = X modified with unchanged statistic
@@ -60,6 +65,7 @@ type kind struct {
 	mod   string
 	steps []step
 	stat  map[string]string                      // statistic-parameter class of each token ("none": no statistics)
+	brk   map[string]int64                       // mode "kept": parameters of the watched breaker (thr, retry of Xr, win)
 	opts  []string                               // spellings of the optional fields this kind knows; opts[0] if the scenario names none
 	rule  func(tok, res, opt string) interface{} // fresh concrete rule of a token
 }
@@ -69,7 +75,7 @@ func reqB(t int64, b uint32) step { return step{t: t, op: "req", batch: b, arg: 
 func reqE(t int64) step           { return step{t: t, op: "req", batch: 1, arg: "a", fail: true} }
 func reqA(t int64, a string) step { return step{t: t, op: "req", batch: 1, arg: a} }
 
-var sx = map[string]string{"X": "sx", "Xm": "sx", "S1": "sx", "S2": "sx", "N1": "n1", "N2": "n2"}
+var sx = map[string]string{"X": "sx", "Xm": "sx", "Xr": "sx", "S1": "sx", "S2": "sx", "N1": "n1", "N2": "n2"}
 var snone = map[string]string{"X": "none", "Xm": "none", "S1": "s", "S2": "s", "N1": "n1", "N2": "n2"}
 
 // ---- flow -------------------------------------------------------------------------------------------
@@ -149,6 +155,15 @@ var kinds = map[string]*kind{
 		steps: []step{reqE(0), reqE(100), req(200), req(1000), req(3050), req(3100), reqE(3200), req(3300)},
 		rule:  func(tok, res, opt string) interface{} { return cbRule(tok, res, opt, 2, 2) }},
 	// accumulated error count of a closed breaker; threshold 3 -> 2 with unchanged statistic parameters
+	// tripped breaker (mode "kept"): 3 errors open it at t=200 (old retry deadline 3200, never reached before step 8);
+	// Xr = X with RetryTimeoutMs 3000 -> 1000.  Everything happens inside one 10 s statistic bucket.
+	"cb-trip-open": {mod: "circuitbreaker", stat: sx, opts: []string{"unset", "set"}, brk: map[string]int64{"thr": 3, "retry": 1000, "win": 10000},
+		steps: []step{reqE(0), reqE(100), reqE(200), req(300), req(1000), reqE(2000), req(2100), req(3100)},
+		rule:  func(tok, res, opt string) interface{} { return cbRule(tok, res, opt, 3, 2) }},
+	// the same with the old breaker HalfOpen at the later reload positions: the probe admitted at t=3300 stays in flight
+	"cb-trip-half": {mod: "circuitbreaker", stat: sx, opts: []string{"unset", "set"}, brk: map[string]int64{"thr": 3, "retry": 1000, "win": 10000},
+		steps: []step{reqE(0), reqE(100), reqE(200), req(300), {t: 3300, op: "hold", batch: 1, arg: "a"}, req(3400), reqE(3500), req(4450)},
+		rule:  func(tok, res, opt string) interface{} { return cbRule(tok, res, opt, 3, 2) }},
 	"cb-mod": {mod: "circuitbreaker", stat: sx, opts: []string{"unset", "set"},
 		steps: []step{reqE(0), reqE(100), req(200), req(300), req(3050), req(3150), reqE(3200), req(3300)},
 		rule:  func(tok, res, opt string) interface{} { return cbRule(tok, res, opt, 3, 2) }},
@@ -203,6 +218,8 @@ func cbRule(tok, res, opt string, thrX, thrXm float64) *cb.Rule {
 		r.Threshold = thrX
 	case "Xm":
 		r.Threshold = thrXm
+	case "Xr": // X with another retry timeout: neither the statistic parameters nor the reading of the statistics change
+		r.Threshold, r.RetryTimeoutMs = thrX, 1000
 	case "S2":
 		r.Threshold = 1001
 	case "N1":
@@ -439,13 +456,22 @@ func main() {
 			b, _ = run(k, fmt.Sprintf("c14_%d_b", tr), old, p0, -1, nil, "", opt)
 		case "fromstart":
 			b, _ = run(k, fmt.Sprintf("c14_%d_b", tr), nw, p0, -1, nil, "", opt)
+		case "kept":
+			if k.brk == nil {
+				hx.Fatal("kind %s has no breaker parameters for mode kept", hx.Str(s, "kind"))
+			}
+			b = a // no reference run: the trace spec computes the expected decisions
 		default:
 			hx.Fatal("unknown mode %q", mode)
 		}
+		brk := k.brk
+		if brk == nil {
+			brk = map[string]int64{"thr": 0, "retry": 0, "win": 0}
+		}
 		out.Emit(hx.M{"op": "new", "tr": tr, "kind": hx.Str(s, "kind"), "mod": k.mod, "mode": mode, "old": old, "new": nw, "pos": pos,
-			"p0": p0, "path": path, "opt": opt, "ld": ld, "stat": k.stat, "nsteps": len(k.steps)})
+			"p0": p0, "path": path, "opt": opt, "ld": ld, "stat": k.stat, "nsteps": len(k.steps), "brk": brk})
 		for i := range a {
-			out.Emit(hx.M{"op": "step", "i": i + 1, "a": a[i], "b": b[i]})
+			out.Emit(hx.M{"op": "step", "i": i + 1, "a": a[i], "b": b[i], "t": k.steps[i].t, "o": k.steps[i].op, "f": k.steps[i].fail})
 		}
 	}
 	clearAll()
